@@ -90,8 +90,11 @@ CHECKS = {
              "random choices; one step of the Python annealing kernel preserves the state invariant for any draw/accept "
              "decision and any invariant-preserving kernel yields a feasible result; the Hilbert curve of every level enumerates "
              "its square exactly once (structural induction), so the Hilbert chip order side condition and completeness hold for "
-             "machines of every size. A verified checker check_placement (soundness proved) is evaluated in "
-             "Coq on the REAL output of all seven placer configurations. Exact correspondence for the sequential family, rand "
+             "machines of every size. breadth_first/hilbert/rcm.place are model entry points (forwarding shape-checked from source) "
+             "with the three clauses as corollaries; Machine's membership test is regenerated from machine.py (its other "
+             "methods shape-checked, fail closed) with lemmas for lookup/assignment/iteration and out-of-bounds dead chips. "
+             "Verified checkers check_placement / check_placement_fast (soundness proved) are evaluated in "
+             "Coq on the REAL output of all seven placer configurations, large cases included. Exact correspondence for the sequential family, rand "
              "(scripted), SA initial placement and step-by-step replay of the Python kernel; independent feasibility oracle.",
         ref="4 C02", technique="Coq proof (invariant free = capacity - reserved - placed; verified validator) + vm_compute correspondence incl. step replay of the SA kernel",
         note=TB + " Partial where stated: the rig_c_sa C kernel is third-party compiled code (outputs validated only); the float "
